@@ -11,8 +11,8 @@ EXTENDS Integers, TLC
 
 CONSTANT NumBatches   \* batch ids 1..NumBatches (2-D and image batches; values live in the harness)
 
-VARIABLES training, initialized, params, res
-vars == <<training, initialized, params, res>>
+VARIABLES training, initialized, params, res, saved
+vars == <<training, initialized, params, res, saved>>
 
 Default == [kind |-> "default"]          \* log_scale = 0, shift = 0
 FromBatch(b) == [kind |-> "batch", b |-> b]  \* log_scale = -log std(b), shift = -mean(b / std(b))
@@ -20,9 +20,10 @@ FromBatch(b) == [kind |-> "batch", b |-> b]  \* log_scale = -log std(b), shift =
 Init ==
   /\ training = TRUE /\ initialized = FALSE /\ params = Default
   /\ res = [k |-> "init"]
+  /\ saved = [k |-> "none"]
 
-Train == training' = TRUE /\ res' = [k |-> "train"] /\ UNCHANGED <<initialized, params>>
-Eval == training' = FALSE /\ res' = [k |-> "eval"] /\ UNCHANGED <<initialized, params>>
+Train == training' = TRUE /\ res' = [k |-> "train"] /\ UNCHANGED <<initialized, params, saved>>
+Eval == training' = FALSE /\ res' = [k |-> "eval"] /\ UNCHANGED <<initialized, params, saved>>
 
 Forward(b) ==
   /\ IF training /\ ~initialized
@@ -31,21 +32,37 @@ Forward(b) ==
           /\ res' = [k |-> "fwd", b |-> b, didInit |-> TRUE, used |-> FromBatch(b)]
      ELSE /\ res' = [k |-> "fwd", b |-> b, didInit |-> FALSE, used |-> params]
           /\ UNCHANGED <<initialized, params>>
-  /\ UNCHANGED training
+  /\ UNCHANGED <<training, saved>>
 
 Inverse(b) ==
   /\ res' = [k |-> "inv", b |-> b, used |-> params]
-  /\ UNCHANGED <<training, initialized, params>>
+  /\ UNCHANGED <<training, initialized, params, saved>>
 
 \* state dict (flag + parameters) saved and loaded into a freshly constructed layer, which
 \* starts in training mode with initialized = FALSE before the load
 SaveLoadFresh ==
   /\ training' = TRUE
   /\ res' = [k |-> "saveload"]
-  /\ UNCHANGED <<initialized, params>>
+  /\ UNCHANGED <<initialized, params, saved>>
+
+\* a checkpoint of the live layer (one per history: a restart / cross-validation reset) ...
+Save ==
+  /\ saved.k = "none"
+  /\ saved' = [k |-> "ckpt", initialized |-> initialized, params |-> params]
+  /\ res' = [k |-> "save"]
+  /\ UNCHANGED <<training, initialized, params>>
+
+\* ... loaded back into the SAME object later on: flag and parameters are those of the checkpoint, the
+\* mode is untouched.  Rolling back to an un-initialised checkpoint makes the next training-mode forward
+\* initialise again; rolling forward to an initialised one means it never initialises.
+LoadSaved ==
+  /\ saved.k = "ckpt"
+  /\ initialized' = saved.initialized /\ params' = saved.params
+  /\ res' = [k |-> "load"]
+  /\ UNCHANGED <<training, saved>>
 
 Next ==
-  \/ Train \/ Eval \/ SaveLoadFresh
+  \/ Train \/ Eval \/ SaveLoadFresh \/ Save \/ LoadSaved
   \/ \E b \in 1..NumBatches : Forward(b) \/ Inverse(b)
 
 Spec == Init /\ [][Next]_vars
@@ -57,7 +74,10 @@ TypeOK ==
 
 InitializedIffFromBatch == initialized <=> params # Default
 
-InitExactlyOnce == [][initialized => (initialized' /\ params' = params)]_vars
+\* (a deliberate roll-back to a checkpoint is the only way out of the initialised state)
+InitExactlyOnce == [][(initialized /\ res'.k # "load") => (initialized' /\ params' = params)]_vars
+
+LoadRestoresCheckpoint == [][res'.k = "load" => (initialized' = saved.initialized /\ params' = saved.params /\ training' = training)]_vars
 
 InitOnlyByTrainingForward ==
   [][(~initialized /\ initialized') => (training /\ res'.k = "fwd" /\ res'.didInit)]_vars
